@@ -1502,6 +1502,10 @@ func (r *Raft) appendEntries(rpc RPC, a *AppendEntriesRequest) {
 			// The entry itself may be compacted away while the log
 			// continues past the snapshot.
 			prevLogTerm = lastSnapTerm
+		} else if a.PrevLogEntry < lastSnapIdx {
+			// Covered by our snapshot: committed, hence identical on any
+			// current leader, and no longer available here to compare.
+			prevLogTerm = a.PrevLogTerm
 		} else {
 			var prevLog Log
 			if err := r.logs.GetLog(a.PrevLogEntry, &prevLog); err != nil {
@@ -1531,7 +1535,12 @@ func (r *Raft) appendEntries(rpc RPC, a *AppendEntriesRequest) {
 		// Delete any conflicting entries, skip any duplicates
 		lastLogIdx, _ := r.getLastLog()
 		var newEntries []*Log
+		lastSnapIdx, _ := r.getLastSnapshot()
 		for i, entry := range a.Entries {
+			if entry.Index <= lastSnapIdx {
+				// Already covered by our snapshot.
+				continue
+			}
 			if entry.Index > lastLogIdx {
 				newEntries = a.Entries[i:]
 				break
